@@ -986,6 +986,10 @@ impl<'a> ZipFile<'a> {
 
 impl<'a> Read for ZipFile<'a> {
     fn read(&mut self, buf: &mut [u8]) -> io::Result<usize> {
+        if buf.is_empty() {
+            // some decoders (zstd) report an error when asked to fill an empty buffer
+            return Ok(0);
+        }
         self.get_reader().read(buf)
     }
 }
